@@ -202,31 +202,41 @@ def usedNames (nodes : List Node) (predefined : Option (List (W String))) : List
 def undefinedNames (nodes : List Node) (predefined : Option (List (W String))) : List (W String) :=
   (usedNames nodes predefined).filter fun w => !nameIn (labelNames nodes) w.val
 
+/-- one source node of PASS 1 of `Cfg::new` -/
+def buildStep (calls : List (W String)) (predefined : Option (List (W String))) (st : BuildSt) (node : Node) :
+    Except CfgErr BuildSt :=
+  match node with
+  | .label name _ =>
+    if st.all.contains name.val then .error (.duplicateLabel name)
+    else .ok { st with cur := st.cur ++ [name], all := name.val :: st.all }
+  | .directive _ .dataSection _ => .ok { st with isText := false }
+  | .directive _ .textSection _ => .ok { st with isText := true }
+  | .directive .. => .ok st
+  | _ =>
+    if st.cur.any (fun l => nameIn calls l.val) then
+      let isInt := match predefined with
+        | some p => st.cur.any (fun l => nameIn p l.val)
+        | none => false
+      let entry : CNode :=
+        { node := .funcEntry node.fileOf node.tok isInt, labels := st.cur, isText := st.isText }
+      let body : CNode := { node := node, labels := [], isText := st.isText }
+      .ok { st with out := (st.out.push entry).push body, cur := [] }
+    else
+      .ok { st with out := st.out.push { node := node, labels := st.cur, isText := st.isText }, cur := [] }
+
+def buildLoop (calls : List (W String)) (predefined : Option (List (W String))) :
+    List Node → BuildSt → Except CfgErr BuildSt
+  | [], st => .ok st
+  | n :: rest, st =>
+    match buildStep calls predefined st n with
+    | .ok st' => buildLoop calls predefined rest st'
+    | .error e => .error e
+
 /-- PASS 1 of `Cfg::new`: one graph node per instruction, function entries in front of called labels -/
-def buildNodes (nodes : List Node) (predefined : Option (List (W String))) : Except CfgErr Cfg := do
-  let calls := allCallNames nodes predefined
-  let mut st : BuildSt := {}
-  for node in nodes do
-    match node with
-    | .label name _ =>
-      if st.all.contains name.val then throw (.duplicateLabel name)
-      st := { st with cur := st.cur ++ [name], all := name.val :: st.all }
-    | .directive _ .dataSection _ => st := { st with isText := false }
-    | .directive _ .textSection _ => st := { st with isText := true }
-    | .directive .. => pure ()
-    | _ =>
-      if st.cur.any (fun l => nameIn calls l.val) then
-        let isInt := match predefined with
-          | some p => st.cur.any (fun l => nameIn p l.val)
-          | none => false
-        let entry : CNode :=
-          { node := .funcEntry node.fileOf node.tok isInt, labels := st.cur, isText := st.isText }
-        let body : CNode := { node := node, labels := [], isText := st.isText }
-        st := { st with out := (st.out.push entry).push body, cur := [] }
-      else
-        st := { st with out := st.out.push { node := node, labels := st.cur, isText := st.isText },
-                        cur := [] }
-  pure { nodes := st.out }
+def buildNodes (nodes : List Node) (predefined : Option (List (W String))) : Except CfgErr Cfg :=
+  match buildLoop (allCallNames nodes predefined) predefined nodes {} with
+  | .ok st => .ok { nodes := st.out }
+  | .error e => .error e
 
 def buildCfg (nodes : List Node) (predefined : Option (List (W String))) : Except CfgErr Cfg :=
   if (undefinedNames nodes predefined).isEmpty then buildNodes nodes predefined
